@@ -28,7 +28,7 @@ _cache = {}
 
 
 def shards(tier, seed):
-    per = 150 if tier == 'quick' else 5000
+    per = 400 if tier == 'quick' else 5000
     budget = 40 if tier == 'quick' else 500
     out = [{'kind': 'random', 'count': per, 'budget_s': budget, 'max_g': 12 if tier == 'quick' else 24} for _ in range(15)]
     out.append({'kind': 'tables', 'budget_s': budget})
@@ -258,12 +258,19 @@ def check_case(case, ctx):
                                     return
 
 
+PARITY_MIX = ['XOR', 'NXOR', 'XOR', 'NXOR', 'XOR', 'AND', 'OR', 'NAND', 'NOR', 'GT', 'NOT']
+
+
 def gen_case(rng, spec):
     if spec.get('kind') == 'deep':
         return {'kind': 'deep', 'shape': 'deep', 'depth': rng.choice(spec['depths']), 'dseed': rng.getrandbits(32),
                 'n_in': rng.randint(2, 3), 'rseed': rng.getrandbits(32), 'shuffle': False, 'edited': False}
     shape = rng.choice(netgen.SHAPES)
-    net = netgen.rand_net(rng, shape=shape, max_in=5, min_in=0 if rng.random() < 0.06 else 1, max_g=spec.get('max_g', 12), max_arity=4)
+    # a quarter of the circuits mix the gates through which an undefined operand always shows (parity, inverters) with
+    # the gates that can absorb it (AND/OR family): where short cuts of a three-valued evaluator meet
+    types = PARITY_MIX if rng.random() < 0.25 else None
+    net = netgen.rand_net(rng, shape=shape, max_in=5, min_in=0 if rng.random() < 0.06 else 1, max_g=spec.get('max_g', 12), max_arity=4,
+                          types=types)
     return {'kind': 'random', 'shape': shape, 'net': netgen.describe(net), 'rseed': rng.getrandbits(32),
             'shuffle': rng.random() < 0.2, 'edited': rng.random() < 0.3}
 
